@@ -36,7 +36,7 @@ def pack_events(events, widths, big, datatype='I'):
 def build(version='FCS3.0', pairs=(), data=b'', delim='/', supp_pairs=None, analysis_pairs=None,
           offsets_in='header', end_conv='last', pad_text=0, pad_data=0, pad_tail=0,
           analysis_in='header', supp_lead=True, trailing_text='', raw_text=None, raw_supp=None,
-          raw_analysis=None, analysis_lead=True, offset_style='zero', stext_first=False):
+          raw_analysis=None, analysis_lead=True, offset_style='zero', stext_first=False, stext_last=False):
     """Assemble HEADER + TEXT + [sTEXT] + DATA + [ANALYSIS].  pairs must NOT contain the offset
     keywords ($BEGINDATA ...); they are added here for 3.x with fixed-width values.
     Returns (bytes, layout dict)."""
@@ -78,6 +78,8 @@ def build(version='FCS3.0', pairs=(), data=b'', delim='/', supp_pairs=None, anal
         sb = 58 + pad_text
         se = sb + len(pre.encode(ENC)) - 1
         stext = pre
+    elif stext is not None and v3 and len(stext) > 0 and stext_last:
+        pass            # stored after every other segment (located by its offsets only): placed below
     elif stext is not None and v3 and len(stext) > 0:
         sb = pos
         se = pos + len(stext.encode(ENC)) - 1
@@ -98,6 +100,11 @@ def build(version='FCS3.0', pairs=(), data=b'', delim='/', supp_pairs=None, anal
         ab = pos
         ae = pos + len(atext.encode(ENC)) - 1
         pos = ae + 1
+    last = stext is not None and v3 and len(stext) > 0 and stext_last and pre is None
+    if last:
+        sb = pos
+        se = pos + len(stext.encode(ENC)) - 1
+        pos = se + 1
     hdr_data = (db, de) if offsets_in == 'header' else (0, 0)
     if not v3:
         hdr_data = (db, de)
@@ -112,7 +119,7 @@ def build(version='FCS3.0', pairs=(), data=b'', delim='/', supp_pairs=None, anal
     if pre is not None:
         out += pre.encode(ENC)
     out += text
-    if sb and pre is None:
+    if sb and pre is None and not last:
         out += stext.encode(ENC)
     out += b'\x00' * pad_data
     assert len(out) == db, (len(out), db)
@@ -120,6 +127,9 @@ def build(version='FCS3.0', pairs=(), data=b'', delim='/', supp_pairs=None, anal
     out += b'\x00' * pad_tail
     if ab:
         out += atext.encode(ENC)
+    if last:
+        assert len(out) == sb, (len(out), sb)
+        out += stext.encode(ENC)
     layout = dict(text_begin=text_begin, text_end=text_end, data_begin=db, data_end=de, sb=sb, se=se,
                   ab=ab, ae=ae)
     return bytes(out), layout
